@@ -120,6 +120,37 @@ def getTo : Option PVal → Json
   | none => .str "absent"
   | some v => pvalTo v
 
+/-- program of one task: [ {"req": id, "own": n|null, "reads": k} | {"spawn": [program, ...]} , ... ] -/
+partial def progOfJson (items : List Json) : Except String (Ctx.Prog (Option Nat)) :=
+  match items with
+  | [] => pure .done
+  | it :: rest =>
+    match it.getObjVal? "spawn" with
+    | .ok (.arr children) =>
+      -- several children spawned at the same point: each gets a copy of the same context
+      let rec go (cs : List Json) : Except String (Ctx.Prog (Option Nat)) :=
+        match cs with
+        | [] => progOfJson rest
+        | c :: cs' => do
+          let ca ← c.getArr?
+          let child ← progOfJson ca.toList
+          let r ← go cs'
+          pure (.spawn child r)
+      go children.toList
+    | _ => do
+      let id ← (← it.getObjVal? "req").getNat?
+      let own ← match it.getObjVal? "own" with
+        | .ok .null => pure none
+        | .ok v => do let n ← v.getNat?; pure (some n)
+        | .error _ => pure none
+      let reads ← (← it.getObjVal? "reads").getNat?
+      let r ← progOfJson rest
+      pure (.req id own reads r)
+
+def optNatTo : Option Nat → Json
+  | none => .null
+  | some n => Json.num (JsonNumber.fromNat n)
+
 def handle (op : String) (j : Json) : Except String Json := do
   match op with
   | "key" =>
@@ -174,6 +205,15 @@ def handle (op : String) (j : Json) : Except String Json := do
       ("nested", .bool (nestedOK [] sched)),
       ("abs_calls", callsTo afin.calls),
       ("abs_store", dumpStore fun n => pvalTo (afin.store n))])
+  | "ctxprog" =>
+    let a ← (← j.getObjVal? "prog").getArr?
+    let prog ← progOfJson a.toList
+    let which ← (← j.getObjVal? "which").getStr?
+    let log := match which with
+      | "ifsome" => Ctx.runProg Ctx.prologueIfSome none prog
+      | _ => Ctx.runProg Ctx.prologueSet none prog
+    pure (Json.mkObj [("log", Json.arr (log.map fun e =>
+      Json.arr #[Json.num (JsonNumber.fromNat e.1), optNatTo e.2.1, optNatTo e.2.2]).toArray)])
   | _ => throw s!"unknown op C15.{op}"
 
 end NemoVerif.Drive.C15
